@@ -64,10 +64,11 @@ ANN_TAGS = {"quick": [[], ["t0"], ["oov", "t1"], ["t0", "t1"], ["t1", "t0"]],
             "thorough": [[], ["t0"], ["t1"], ["oov"], ["oovt", "t1"], ["t0", "t1"], ["t1", "t0"]]}
 # predicted (tag, score) lists
 VECS = {
-    "quick": [[["t0", 0.5]], [["t0", 0.25], ["t1", 0.5]], [["t1", 0.5], ["oov", 0.25]]],
+    # the last list stays within 'vocabulary scores sum to <= 1' while all its scores together exceed 1
+    "quick": [[["t0", 0.5]], [["t0", 0.25], ["t1", 0.5]], [["t1", 0.5], ["oov", 0.25]], [["t0", 0.5], ["t1", 0.25], ["oov", 0.75]]],
     "thorough": [[], [["t0", 0.25]], [["t1", 0.25]], [["t0", 0.5]], [["t1", 0.5]], [["t0", 0.25], ["t1", 0.25]],
                  [["t0", 0.5], ["t1", 0.25]], [["t0", 0.25], ["t1", 0.5]], [["t0", 0.5], ["t1", 0.5]],
-                 [["t1", 0.5], ["oovt", 0.5]]],
+                 [["t1", 0.5], ["oovt", 0.5]], [["t0", 0.5], ["t1", 0.25], ["oov", 0.75]]],
 }
 GKEYS = {"quick": ["none", "A", "B", "C"], "thorough": ["none", "A", "B", "C"]}
 
